@@ -346,7 +346,12 @@ func m4Offsets(b *strings.Builder, es []*gpmf.Element) {
 	})
 }
 
-func m4Decode(rs io.ReadSeeker) string {
+// m4Shared: one Decoder used for file after file, as `gopro laptimes a.mp4 b.mp4` does (a decoder
+// carries nothing from one file to the next); half of the well-formed cases go through it, the
+// others and all damaged files through a decoder of their own.
+var m4Shared = gpmf.NewDecoder()
+
+func m4Decode(rs io.ReadSeeker, shared bool) string {
 	wait := 30 * time.Second
 	if _, sparse := rs.(*sparseFile); sparse {
 		// the library reads the whole media data box, hole included, into memory: gigabytes
@@ -357,7 +362,11 @@ func m4Decode(rs io.ReadSeeker) string {
 		var es []*gpmf.Element
 		cls, _ := classify(func() error {
 			var err error
-			es, err = gpmf.NewDecoder().Decode(rs)
+			dec := gpmf.NewDecoder()
+			if shared {
+				dec = m4Shared
+			}
+			es, err = dec.Decode(rs)
 			return err
 		})
 		if cls != "ok" {
@@ -425,7 +434,7 @@ func execM4(_ *config, op string) string {
 		// give the gigabytes back before the next case asks for its own
 		defer debug.FreeOSMemory()
 	}
-	return m4Decode(m4Reader(toks, file))
+	return m4Decode(m4Reader(toks, file), toks[1] == "wf" && caseHash(op)&2 == 0)
 }
 
 // ---- generators --------------------------------------------------------------------------
